@@ -98,7 +98,8 @@ def run(check):
     for i, job in enumerate(jobs):
         logs = [r[i] for r in results]
         n = max(len(x) for x in logs)
-        rows = [{'row': [x[k] if k < len(x) else {'e': '(end)'} for x in logs]} for k in range(n)]
+        opt = ['-O' in m[2] for m in MATRIX]
+        rows = [{'row': [x[k] if k < len(x) else {'e': '(end)'} for x in logs], 'opt': opt} for k in range(n)]
         runs.append(({'program': job['prog'], 'src': job['src'], 'configs': [m[0] for m in MATRIX]}, rows, job['nroots']))
     check.programs += len(jobs) * len(MATRIX)
     check.extra['configurations'] = [m[0] for m in MATRIX]
